@@ -209,8 +209,9 @@ def gauss_cases(draw, tier="quick"):
          "x": draw(gen.vec(n)), "x2": draw(gen.vec(n)),
          "sparse_switch": draw(st.sampled_from(["below", "above"])),
          "true_size": False,
-         # overall scale of the standard deviations: 1, 1e-5 (covariance entries ~1e-10, off-diagonals below 1e-8) or 1e3
-         "scale_pow": draw(st.sampled_from([0, 0, 0, -5, 3]))}
+         # overall scale of the standard deviations: 1, 1e-5 (covariance entries ~1e-10, off-diagonals below 1e-8), 1e3 or 1e9
+         "scale_pow": draw(st.sampled_from([0, 0, 0, -5, 3, 9])),
+         "sparse_format": draw(st.sampled_from(["csr", "csr", "csc", "dia", "coo"]))}
     sizes = [40, 60] if tier == "quick" else [40, 60, 74, 75, 76, 90]
     if draw(st.integers(0, 11 if tier == "quick" else 7)) == 0:
         # moderate and large true sizes (matrices from a seeded stream instead of generated entries): both sides of the real
@@ -275,7 +276,10 @@ def gauss_arg(c):
     if par in ("sqrtcov", "sqrtprec"):
         Q = c["Q"] if not c.get("true_size") else np.random.RandomState(c["seedG"] + 1).uniform(-1, 1, (n, n))
         M = sqrt_of(M, c["sqrt_kind"], Q)
-    return sp.csr_matrix(M) if st_ == "sparse" else M
+    if st_ == "sparse":
+        # any scipy sparse format is a sparse matrix (scipy.sparse.diags returns the DIA format)
+        return {"csr": sp.csr_matrix, "csc": sp.csc_matrix, "dia": sp.dia_matrix, "coo": sp.coo_matrix}[c.get("sparse_format", "csr")](M)
+    return M
 
 
 def superlu_reorders(c):
@@ -303,6 +307,8 @@ def gauss_tags(c):
          "scale_pow": c.get("scale_pow", 0)}
     if superlu_reorders(c):
         t["superlu_reorders"] = True
+    if c["structure"] == "sparse":
+        t["sparse_format"] = c.get("sparse_format", "csr")
     if c["param"] in ("sqrtcov", "sqrtprec") and c["structure"] in ("dense", "sparse"):
         t["sqrt_kind"] = c["sqrt_kind"]
     return t
